@@ -740,6 +740,11 @@ func keyName(v Value) string {
 // hashStub: maphash.Comparable(seed, key). Mode 0: a fixed concrete mixing function of (seed,key);
 // mode 1: a fresh 64-bit symbol per (seed,key), memoised.
 func (in *Interp) hashStub(seed *Term, key Value) Value {
+	// a hash is a function of (seed, key): a symbolic key is first concretised (forking over its feasible
+	// values) so that equal keys always get equal hashes
+	if kt, ok := key.(*Term); ok && !kt.IsConst() {
+		key = in.tb.Const(kt.w, in.run.concretise(in, kt, "hash-key"))
+	}
 	name := fmt.Sprintf("hash_s%d_%s", seed.c, keyName(key))
 	if t, ok := in.hashMemo[name]; ok {
 		return t
